@@ -342,7 +342,13 @@ class Oracle:
         raw += bytes((-len(raw)) % 4)
         if len(raw) < 20:
             raw += bytes(20 - len(raw))
-        return bytes([(e["tpid_format"] << 6) | 5, 0]) + len(raw).to_bytes(2, "big") + raw, e
+        tid = bytes([(e["tpid_format"] << 6) | 5, 0]) + len(raw).to_bytes(2, "big") + raw
+        if kind == "iscsi0":
+            # the Lean oracle's encoder of C04.transportId_iscsi_name (Std.encTidIscsiName): name, NUL padding
+            lean = self.stdenc("tidiscsi", "{name=%s,pad=i%d}" % (hx(s.encode()), len(raw) - len(s)))
+            if lean != tid:
+                raise Infra("oracle inconsistency: Std.encTidIscsiName differs from the harness's composition")
+        return tid, e
 
     def prreadfullstatus(self):
         gen = self.value(32)
